@@ -290,6 +290,22 @@ def run(ctx):
     # ... and they are where the statement puts them: the four surfaces between the wall plane and the window plane (the geometry rule of C13)
     from ._reveal import check_reveals
     check_reveals(ctx, "c12.occluders", "c12.occluders")
+    # "0 when the sun is behind the window": behind/in front is decided with the wall's normal, which is +-z of its polygon according to the polygon's
+    # orientation - a property of *all* its vertices (signed area).  A test on the first corner only (first three vertices) gives the wrong side for a
+    # non-convex outline whose second vertex is a reflex corner: the window is then "behind the sun" at every hour
+    pn = [f_ for f_ in prog.fns.values() if f_.path.endswith("geometry::HasSurface>::normal") and "Vec<" in f_.path]
+    ctx.require(len(pn) == 1, "Polygon::normal (HasSurface for Vec<Point2>) not found")
+    pn = pn[0]
+    reads_all = bool(pn.body.loops()) or any(short_callee(callee_name(t_) or "") in ("iter", "sum", "fold", "map", "zip", "windows", "enumerate", "signed_area", "area_signed")
+                                             for f_ in [pn] + prog.closures_of(pn) for _, t_ in f_.body.calls())
+    idx_consts = sorted({strip(Scope(prog, pn).operand(t_["args"][1]))[1] for _, t_ in pn.body.calls()
+                         if short_callee(callee_name(t_) or "") == "index" and len(t_["args"]) == 2 and strip(Scope(prog, pn).operand(t_["args"][1]))[0] == "k"})
+    if reads_all:
+        ctx.ok("c12.exit", "c12.exit|polygon-normal", "the polygon's orientation is decided from all its vertices", pn.loc())
+    else:
+        ctx.violation("c12.exit", "c12.exit|polygon-normal", "Polygon::normal looks at vertices %s only (no loop over the outline): for a non-convex polygon whose second vertex is a reflex "
+                      "corner the cross product of the first two edges has the opposite sign of the polygon's orientation, the wall's normal points inwards and "
+                      "sunlit_fraction returns 0 (sun behind the window) at every hour" % idx_consts, pn.loc())
     # ... and none of the candidates is forgotten on the way into the acceleration structure (the conservation rule of C13)
     from .c13 import check_node_list_conservation
     check_node_list_conservation(ctx, prog, "c12.conserve")
